@@ -35,6 +35,29 @@ func genGlob(c *Ctx) {
 		{`Alice\*, Bob*, Carol.`, "Alice*, Bob, Dan, Erin, Carol."}, {`Alice\*, Bob*, Carol.`, "Alice, Bob, Carol."}, {"", ""}, {"**", ""}} {
 		c.Emit("like/corpus", WList(WStr(ps[0]), WStr(ps[1])), globObs(ps[0], ps[1]))
 	}
+	// text outside ASCII and bytes that are not UTF-8: every sequence of up to 3 (patterns) / 3 (strings) pieces
+	// from multi-byte characters, U+FFFD, invalid bytes, the wildcard and the escape
+	pieces := []string{"é", "\ufffd", "\xff", "\xfe", "\xc3", "*", "\\", "a"}
+	var seqs []string
+	var rec func(prefix string, depth int)
+	rec = func(prefix string, depth int) {
+		seqs = append(seqs, prefix)
+		if depth == 0 {
+			return
+		}
+		for _, x := range pieces {
+			rec(prefix+x, depth-1)
+		}
+	}
+	rec("", 3)
+	for pi, p := range seqs {
+		for si, sv := range seqs {
+			if !c.Thorough() && (pi*7+si)%5 != 0 {
+				continue
+			}
+			c.Emit("like/bytes", WList(WStr(p), WStr(sv)), globObs(p, sv))
+		}
+	}
 	n := 30000
 	if c.Thorough() {
 		n = 1000000
